@@ -110,7 +110,7 @@ func drawCase(t *rapid.T) Case {
 			DelayMs: []int{0, 0, 1, 5, 20}[rapid.IntRange(0, 4).Draw(t, "delay")],
 			With:    rapid.IntRange(0, 2).Draw(t, "with") == 0,
 			CtxEnds: rapid.IntRange(0, 4).Draw(t, "ctxends") == 0,
-			Double:  rapid.SampledFrom([]string{"", "", "", "", "", "", "", "", "rej-acc", "rej-rej", "acc-acc", "acc|rej"}).Draw(t, "double"),
+			Double:  rapid.SampledFrom([]string{"", "", "", "", "", "", "", "", "rej-acc", "rej-rej", "acc-acc", "acc|rej", "acc-held|rej"}).Draw(t, "double"),
 		}
 		// two thirds of the overlapping groups avoid a head-on collision (both
 		// parties proposing on one channel), which always ends in timeouts
@@ -234,6 +234,21 @@ func runCase(c Case) *h.Outcome {
 	// proposals that were put on the wire
 	var smu sync.Mutex
 	sentProps := map[string]bool{}
+	// acceptances whose sender is held inside Publish for a moment (the message
+	// is on its way already), and who waits for them to be on the wire
+	holdAcc := map[accKey]chan struct{}{}
+	pr.Env.Bus.TapAfter(func(e *wire.Envelope) {
+		if m, ok := e.Msg.(*client.ChannelUpdateAccMsg); ok {
+			amu.Lock()
+			sent := holdAcc[accKey{m.ChannelID, m.Version}]
+			delete(holdAcc, accKey{m.ChannelID, m.Version})
+			amu.Unlock()
+			if sent != nil {
+				close(sent)
+				time.Sleep(3 * time.Millisecond)
+			}
+		}
+	})
 	pr.Env.Bus.Tap(func(e *wire.Envelope) {
 		if m, ok := e.Msg.(*client.ChannelUpdateMsg); ok && m.State != nil {
 			smu.Lock()
@@ -284,6 +299,22 @@ func runCase(c Case) *h.Outcome {
 			case "acc-acc":
 				_ = r.Accept(ctx)
 				_ = r.Accept(ctx)
+				return
+			case "acc-held|rej":
+				// the watchdog fires when the acceptance is on the wire and the
+				// accepting call has not returned yet (its Publish is held for 3 ms)
+				sent := make(chan struct{})
+				amu.Lock()
+				holdAcc[accKey{u.State.ID, u.State.Version}] = sent
+				amu.Unlock()
+				done := make(chan struct{})
+				go func() { _ = r.Accept(ctx); close(done) }()
+				select {
+				case <-sent:
+					_ = r.Reject(ctx, "watchdog")
+				case <-done: // the acceptance failed before anything was sent
+				}
+				<-done
 				return
 			case "acc|rej":
 				done := make(chan struct{})
@@ -797,7 +828,20 @@ func TestReplay(t *testing.T) {
 		t.Fatal(err)
 	}
 	rec := h.Begin("C06", "replay")
-	o := runCase(c)
-	fmt.Println("classes:", o.Classes)
-	rec.Report(t, c, o)
+	// a handler whose watchdog rejects while its acceptance is under way races
+	// with the library by design (F35): such cases are repeated
+	runs := 1
+	for _, s := range c.Steps {
+		if s.Double == "acc|rej" {
+			runs = 20
+		}
+	}
+	for i := 1; ; i++ {
+		o := runCase(c)
+		if o.Fail != nil || i == runs {
+			fmt.Println("classes:", o.Classes, "runs:", i)
+			rec.Report(t, c, o)
+			return
+		}
+	}
 }
